@@ -5,7 +5,7 @@ C11 (GC reclaims space), index side: one complete index GC cycle with the free-f
 unlinks every non-current index file that no bucket refers into.  Core Lean only.
 -/
 
-namespace Sth
+namespace Sth.C11
 
 /-- file `f` holds nothing: it is unlinked or has length zero -/
 def Released (files : NMap Bytes) (f : Nat) : Prop := files.get? f = none ∨ files.get? f = some []
@@ -359,4 +359,4 @@ theorem indexGC_unlinks {m : Mem} {d : Disk} {h : IdxHeader} (hh : d.ihdr = some
     (indexGC m d true none).2.2.1.ifiles.get? f = none :=
   (indexGC_keeps_scan m d true none f).2 (truncateFreeFiles_unlinks hh h1 h2 hfree hex)
 
-end Sth
+end Sth.C11
